@@ -36,6 +36,18 @@ var c09Atoms = append(append([]ora.Atom{}, ora.StdAtoms...),
 	ora.Atom{Name: "TBLi", Gen: func(t *ora.Tok) string {
 		return "<table><tr><th>" + t.W(1) + "</th><th>" + t.W(1) + "</th></tr><tr><td><img src=\"http://example.com/img/" + t.U() + ".jpg\"> " + t.W(2) + "</td><td>" + t.W(1) + "</td></tr><tr><td>" + t.W(1) + "</td><td>" + t.W(2) + "</td></tr></table>"
 	}},
+	// a data table with two images: one with src and srcset, followed by one with src only
+	ora.Atom{Name: "TBLi2", Gen: func(t *ora.Tok) string {
+		return "<table><tr><th>" + t.W(1) + "</th><th>" + t.W(1) + "</th></tr><tr><td><img src=\"http://example.com/img/" + t.U() + ".jpg\" srcset=\"http://example.com/img/" + t.U() + "-1x.jpg 1x, http://example.com/img/" + t.U() + "-2x.jpg 2x\"> " + t.W(2) + "</td><td><img src=\"http://example.com/img/" + t.U() + ".png\"> " + t.W(1) + "</td></tr><tr><td>" + t.W(1) + "</td><td>" + t.W(2) + "</td></tr></table>"
+	}},
+	// a video with fallback content of every kind: text directly inside, an element, text after it
+	ora.Atom{Name: "VIDf", Gen: func(t *ora.Tok) string {
+		return "<video src=\"http://example.com/v/" + t.U() + ".mp4\" width=\"400\" height=\"300\">\n  <source src=\"http://example.com/v/" + t.U() + ".webm\">\n  " + t.W(4) + " <a href=\"http://example.com/v/" + t.U() + ".mp4\">" + t.W(2) + "</a> " + t.W(2) + "\n  <div>" + t.W(3) + "</div>\n</video>"
+	}},
+	// a paragraph whose whole content sits in one inline wrapper
+	ora.Atom{Name: "WRAPi", Gen: func(t *ora.Tok) string {
+		return "<p><strong>" + t.W(9) + " <em>" + t.W(2) + "</em> " + t.W(10) + "</strong></p>"
+	}},
 	ora.Atom{Name: "PICf", Gen: func(t *ora.Tok) string {
 		return "<picture><source srcset=\"http://example.com/img/" + t.U() + ".webp 1x, http://example.com/img/" + t.U() + "-2.webp 2x\"><img src=\"http://example.com/img/" + t.U() + ".jpg\" width=\"400\" height=\"300\"></picture>"
 	}},
@@ -47,7 +59,7 @@ var c09Atoms = append(append([]ora.Atom{}, ora.StdAtoms...),
 	}},
 )
 
-var c09Alphabet = []string{"Pc", "Ps", "Pb", "H", "UL3", "ULn", "BQ", "PRE", "TBLd", "TBLl", "TBLi", "IMG", "IMGss", "IMGcdn", "IMGrel", "LAZY", "LAZYs", "PICf", "FALLBt", "FIGhi", "PIC", "FIG", "FIGl", "FIGe",
+var c09Alphabet = []string{"Pc", "Ps", "Pb", "H", "UL3", "ULn", "BQ", "PRE", "TBLd", "TBLl", "TBLi", "TBLi2", "VIDf", "WRAPi", "IMG", "IMGss", "IMGcdn", "IMGrel", "LAZY", "LAZYs", "PICf", "FALLBt", "FIGhi", "PIC", "FIG", "FIGl", "FIGe",
 	"INL", "JS1", "BR", "HIDs", "NOS", "PUN", "VID", "YT", "TW", "TXT", "TBLh", "SIDE"}
 
 // text-only alphabet for the word-count clause
@@ -150,7 +162,7 @@ func init() {
 	eng.Register(&eng.Prop{
 		ID:        "C09",
 		DesignRef: "§5 C09",
-		Rule: "docspace BFS from S1,S2 with <= 2 (quick) / <= 3 (thorough) insertions over 36 atoms covering every element kind (images with src+srcset, relative URLs, lazy images, picture, tables with images, figures, embeds, punctuation), with and without page URL; " +
+		Rule: "docspace BFS from S1,S2 with <= 2 (quick) / <= 3 (thorough) insertions over 39 atoms covering every element kind (images with src+srcset, relative URLs, lazy images, picture, tables with images, figures, embeds, punctuation), with and without page URL; " +
 			"plus the title-less text-only sub-space (18 atoms, including a sidebar-classed link cluster so that the two extraction passes differ) for the WordCount clause." + crossRule + " Oracle: words(Text) == words(visible text of result.Node) outside embed placeholders; ContentImages is an in-order subsequence of the HTML's img/source src+srcset candidates; WordCount == |words(Text)| in the text-only sub-space when Title is empty. " +
 			"Non-trivial = some text dropped, >= 20 words kept and (images listed or word-count clause applies).",
 		Enumerate: c09Enumerate,
